@@ -2,6 +2,7 @@ SPECIFICATION Spec
 CONSTANTS Family = "finders"
           MaxEdits = 1
           UnivKinds = {"complete"}
+          GtFirst = FALSE
           WithGt = TRUE
 INVARIANT FindersAgree
 INVARIANT JunkChangesNothing
